@@ -17,7 +17,8 @@ import (
 type decision struct {
 	taken bool
 	val   uint64
-	kind  uint8 // 0 = branch, 1 = choose
+	kind  uint8  // 0 = branch, 1 = choose
+	model *Model // model of the path condition right after this decision (only on the last entry of a queued prefix)
 }
 
 type regionDecl struct {
@@ -264,12 +265,93 @@ func (ex *Exec) evalModel(c *Term) (uint64, bool) {
 	return ex.tt.Eval(c, ex.model, map[int32]uint64{})
 }
 
+type cacheEntry struct {
+	res   SatResult
+	model *Model // partial model over the variables of the slice (nil if not requested yet)
+}
+
 func (ex *Exec) check(extra *Term, wantModel bool) (SatResult, *Model) {
-	conds := ex.pc
-	if extra != nil {
-		conds = append(append([]*Term(nil), ex.pc...), extra)
+	if extra == nil || (wantModel && ex.model == nil) {
+		conds := ex.pc
+		if extra != nil {
+			conds = append(append([]*Term(nil), ex.pc...), extra)
+		}
+		return ex.solver.Check(conds, wantModel, ex.inputs, nil)
 	}
-	return ex.solver.Check(conds, wantModel, ex.inputs, nil)
+	if extra.IsFalse() {
+		return Unsat, nil
+	}
+	// constraint independence: the path condition is satisfiable, so only the conjuncts that
+	// (transitively) share variables with the query can affect the answer; for the other
+	// variables the cached model of the path condition stays valid.
+	tt := ex.tt
+	rel := tt.varSet(extra)
+	used := make([]bool, len(ex.pc))
+	var sel []*Term
+	for changed := true; changed; {
+		changed = false
+		for i, c := range ex.pc {
+			if used[i] {
+				continue
+			}
+			vs := tt.varSet(c)
+			if len(vs) == 0 || setsIntersect(vs, rel) {
+				used[i] = true
+				sel = append(sel, c)
+				rel = mergeSets(rel, vs)
+				changed = true
+			}
+		}
+	}
+	sel = append(sel, extra)
+	ids := make([]int, len(sel))
+	for i, c := range sel {
+		ids[i] = int(c.id)
+	}
+	sort.Ints(ids)
+	var kb strings.Builder
+	last := -1
+	for _, id := range ids {
+		if id != last {
+			fmt.Fprintf(&kb, "%d,", id)
+			last = id
+		}
+	}
+	key := kb.String()
+	ce, hit := ex.qcache[key]
+	if hit && (!wantModel || ce.res != Sat || ce.model != nil) {
+		ex.cacheHits++
+	} else {
+		var vars []*Term
+		if wantModel {
+			for _, id := range rel {
+				if id >= 0 {
+					vars = append(vars, tt.all[id])
+				}
+			}
+		}
+		r, m := ex.solver.Check(sel, wantModel, vars, nil)
+		ce = cacheEntry{res: r, model: m}
+		if r != Unknown {
+			if ex.qcache == nil || len(ex.qcache) > 1000000 {
+				ex.qcache = map[string]cacheEntry{}
+			}
+			ex.qcache[key] = ce
+		}
+	}
+	if !wantModel || ce.res != Sat {
+		return ce.res, nil
+	}
+	merged := &Model{vals: make(map[string]uint64, len(ex.model.vals)+8)}
+	for k, v := range ex.model.vals {
+		merged.vals[k] = v
+	}
+	if ce.model != nil {
+		for k, v := range ce.model.vals {
+			merged.vals[k] = v
+		}
+	}
+	return Sat, merged
 }
 
 // ensureModel makes ex.model a model of the current path condition (or ends the path if infeasible).
@@ -317,6 +399,10 @@ func (ex *Exec) Decide(c *Term) bool {
 			ex.addPC(tt.BNot(c))
 		}
 		ex.model = nil
+		if len(ex.trace) == len(ex.prefix) && d.model != nil && !ex.pcHasUF() {
+			ex.model = d.model
+		}
+		ex.trace[len(ex.trace)-1].model = nil
 		return d.taken
 	}
 	if ex.curG != nil && ex.curG.frame != nil {
@@ -330,12 +416,12 @@ func (ex *Exec) Decide(c *Term) bool {
 		} else {
 			other = c
 		}
-		r, _ := ex.check(other, false)
+		r, om := ex.check(other, true)
 		if r != Unsat {
 			if r == Unknown {
 				ex.unknownBranches++
 			}
-			ex.pushAlt(decision{taken: !side})
+			ex.pushAlt(decision{taken: !side, model: om})
 		}
 		ex.trace = append(ex.trace, decision{taken: side})
 		if side {
@@ -635,4 +721,13 @@ func sortedKeys(m map[string]bool) []string {
 	}
 	sort.Strings(r)
 	return r
+}
+
+func (ex *Exec) pcHasUF() bool {
+	for _, c := range ex.pc {
+		if c.hasUF {
+			return true
+		}
+	}
+	return false
 }
